@@ -237,6 +237,7 @@ impl<F: Float, R: Rng + Clone, DA: Data<Elem = F>, T, D: Distance<F>>
         let mut min_inertia = F::infinity();
         let mut best_centroids = None;
         let mut memberships = Array1::zeros(n_samples);
+        let mut best_memberships = Array1::zeros(n_samples);
         let mut dists = Array1::zeros(n_samples);
 
         let n_runs = self.n_runs();
@@ -282,13 +283,15 @@ impl<F: Float, R: Rng + Clone, DA: Data<Elem = F>, T, D: Distance<F>>
             if inertia < min_inertia {
                 min_inertia = inertia;
                 best_centroids = Some(centroids.clone());
+                best_memberships.assign(&memberships);
             }
         }
 
         match best_centroids {
             Some(centroids) => {
+                // count the members of the run whose centroids are returned (not of the last run)
                 let mut cluster_count = Array1::zeros(self.n_clusters());
-                memberships
+                best_memberships
                     .iter()
                     .for_each(|&c| cluster_count[c] += F::one());
                 Ok(KMeans {
